@@ -72,6 +72,8 @@ _modcount = 0
 # FixedNestedLiteral, FixedDunder; FALSE in spec/mc/*.cfg = behaviour of the current code).  To try the
 # check against a tree with some of /verif/proposed/C13-fix-*.diff applied without editing the cfgs:
 #   VERIF_C13_FIXED=star,final,literal,dunder  (any subset)
+# The star / final / literal repairs are committed in /repo (see known_findings.jsonl), so they are on by default.
+os.environ.setdefault("VERIF_C13_FIXED", "star,final,literal")
 _SWITCH = {"star": "FixedStar", "final": "FixedFinalInString", "literal": "FixedNestedLiteral", "dunder": "FixedDunder"}
 
 
